@@ -276,6 +276,8 @@ def as_int(v):
 
 def join_kinds(kinds):
     ks = set(kinds)
+    if any(k.startswith("tuple:") for k in ks):
+        return "any"
     if len(ks) == 1:
         return next(iter(ks))
     if all(k.startswith("ref:") for k in ks):
@@ -894,6 +896,10 @@ def list_comp(eng, e, st, fr, k):
         finally:
             s.spec = saved_spec
         elt, keep = holder["elt"], holder["keep"]
+        if isinstance(elt, STuple):
+            # a fresh tuple object per element: identities are not observable, contents are not modelled
+            tarr = fresh("tuples", z3.ArraySort(IntS, IntS))
+            elt = SDyn(PyVal.RefV(z3.Select(tarr, j)))
         okind = elt.kind
         # [b for b in xs if isinstance(b, T)]: the result is statically a list of T
         if (len(g.ifs) == 1 and isinstance(e.elt, ast.Name) and isinstance(g.target, ast.Name) and e.elt.id == g.target.id
@@ -923,6 +929,16 @@ def list_comp(eng, e, st, fr, k):
         inv = fresh("cinv", z3.ArraySort(IntS, IntS))
         s.assume(z3.ForAll([j], z3.Implies(z3.And(0 <= j, j < n, keep), z3.And(
             0 <= z3.Select(inv, j), z3.Select(inv, j) < m, z3.Select(idx, z3.Select(inv, j)) == j))))
+        # consequences of the characterisation that need a counting argument (sound: they follow from idx being
+        # an order isomorphism between the output positions and the kept input positions)
+        i2 = z3.Int("i2!comp")
+        all_kept = z3.ForAll([j], z3.Implies(z3.And(0 <= j, j < n), keep))
+        s.assume(z3.Implies(all_kept, z3.And(m == n, z3.ForAll([q], z3.Implies(z3.And(0 <= q, q < n), z3.Select(idx, q) == q)))))
+        s.assume(z3.Implies(z3.ForAll([j], z3.Implies(z3.And(0 <= j, j < n), z3.Not(keep))), m == 0))
+        d = fresh("cdrop", IntS)      # "exactly one position is dropped" instantiated at a Skolem position
+        one_dropped = z3.And(0 <= d, d < n, z3.Not(keep_at(d)), z3.ForAll([i2], z3.Implies(z3.And(0 <= i2, i2 < n, i2 != d), keep_at(i2))))
+        s.assume(z3.Implies(z3.Exists([i2], z3.And(0 <= i2, i2 < n, z3.Not(keep_at(i2)))), z3.And(0 <= d, d < n, z3.Not(keep_at(d)))))
+        s.assume(z3.Implies(one_dropped, z3.And(m == n - 1, z3.ForAll([q], z3.Implies(z3.And(0 <= q, q < m), z3.Select(idx, q) == z3.If(q < d, q, q + 1))))))
         lv = eng.new_list_sym(s, okind, m, arr)
         s.ghost.setdefault("comp_idx", {})[lv.t.get_id()] = (idx, inv, m)
         return k(s, lv)
@@ -992,6 +1008,9 @@ def dict_comp(eng, e, st, fr, k):
         # the order array lists exactly the present keys, each once
         s.assume(z3.ForAll([t_], z3.Implies(z3.And(0 <= t_, t_ < cnt), z3.And(z3.Select(has, z3.Select(okeys, t_)), z3.Select(opos, z3.Select(okeys, t_)) == t_))))
         s.assume(z3.ForAll([kx], z3.Implies(z3.Select(has, kx), z3.And(0 <= z3.Select(opos, kx), z3.Select(opos, kx) < cnt, z3.Select(okeys, z3.Select(opos, kx)) == kx))))
+        j2_ = z3.Int("j2!dc")
+        distinct = z3.ForAll([j, j2_], z3.Implies(z3.And(0 <= j, j < j2_, j2_ < n), kt != z3.substitute(kt, (j, j2_))))
+        s.assume(z3.Implies(distinct, z3.And(cnt == n, z3.ForAll([t_], z3.Implies(z3.And(0 <= t_, t_ < n), z3.And(z3.Select(okeys, t_) == key_at(t_), z3.Select(last, key_at(t_)) == t_))))))
         h.set(("dkeys", kf), z3.Store(h.get(("dkeys", kf)), d.t, okeys))
         return k(s, d)
     return eng.ev(g.iter, st, fr, got_iter)
@@ -1152,6 +1171,21 @@ def _cls_is(eng, e, st, fr, k):
     return eng.ev(e.args[0], st, fr, got)
 
 
+def _same_class(eng, e, st, fr, k):
+    """same_class(a, b): a and b have the same dynamic class"""
+    def got(s, a):
+        def got_b(s2, b):
+            ta = PyVal.rval(a.t) if isinstance(a, SDyn) else a.t
+            tb = PyVal.rval(b.t) if isinstance(b, SDyn) else b.t
+            c = eng.cls_term(s2, ta) == eng.cls_term(s2, tb)
+            for v in (a, b):
+                if isinstance(v, SDyn):
+                    c = z3.And(PyVal.is_RefV(v.t), c)
+            return k(s2, SBool(c))
+        return eng.ev(e.args[1], s, fr, got_b)
+    return eng.ev(e.args[0], st, fr, got)
+
+
 def _same_obj(eng, e, st, fr, k):
     return eng.ev(e.args[0], st, fr, lambda s, a: eng.ev(e.args[1], s, fr, lambda s2, b: k(s2, SBool(eng.identical(s2, a, b)))))
 
@@ -1212,7 +1246,7 @@ def _modconst(eng, e, st, fr, k):
     return k(st, eng.const_value(node, mod, st, fr))
 
 
-SPECIAL_FORMS = {"existed": _existed, "content_unchanged": _content_unchanged, "modconst": _modconst, "nlines": _nlines, "joined": _joined, "truthy": _truthy, "isint": _isint, "isnone": _isnone,
+SPECIAL_FORMS = {"same_class": _same_class, "existed": _existed, "content_unchanged": _content_unchanged, "modconst": _modconst, "nlines": _nlines, "joined": _joined, "truthy": _truthy, "isint": _isint, "isnone": _isnone,
                  "dict_key_at": _dict_key_at, "str_of": _str_of, "forall": _quant("forall"), "exists": _quant("exists"), "implies": _implies, "old": _old,
                  "fresh": _fresh, "allocated": _allocated, "unchanged": _unchanged, "isstr": _isstr,
                  "sval": _sval, "ival": _ival, "cls_is": _cls_is, "same": _same_obj, "as_ref": _as_ref}
